@@ -135,7 +135,9 @@ fn gen_planar_base(rng: &mut Rng, tier: Tier) -> (String, M) {
                 }
             }
             1 => {
-                let n = 1 + rng.below(max_cells.min(200));
+                // now and then a very long strip: its boundary has more than 1024 vertices
+                let long = rng.chance(if tier == Tier::Quick { 0.004 } else { 0.01 });
+                let n = if long { 515 + rng.below(400) } else { 1 + rng.below(max_cells.min(200)) };
                 let cell = rng.log_uniform(0.1, 3.0);
                 ("strip".into(), grid_diag(rng, n, 1, cell, 0.15, &|_, _| true, rng_bool(n)))
             }
@@ -483,7 +485,7 @@ impl Property for C20 {
                 near_queries.push(NearQuery { face, bc, offset });
             }
         }
-        let chart = if rng.chance(0.4) { 1 + rng.below(3) as u8 } else { 0 };
+        let chart = if rng.chance(0.5) { 1 + rng.below(5) as u8 } else { 0 };
         Sc { label, kind, mesh, poses, uv_queries, near_queries, chart }
     }
 
@@ -544,7 +546,30 @@ impl Property for C20 {
                             let q = chart_apply(sc.chart, *p);
                             Point2::new(q[0], q[1])
                         };
-                        let map = UvMapping::new(layout.iter().map(chart_pt).collect(), pm.f.clone()).map_err(|e| e.to_string())?;
+                        // a chart has its own vertex list: same numbering as the mesh (modes 0-3), its
+                        // vertices listed in reverse order (4), or three vertices of its own per face,
+                        // split along every edge (5); face ids are what chart and mesh share
+                        let nv = layout.len() as u32;
+                        let (chart_v, chart_f): (Vec<Point2>, Vec<[u32; 3]>) = match sc.chart {
+                            4 => (
+                                layout.iter().rev().map(chart_pt).collect(),
+                                pm.f.iter().map(|f| [nv - 1 - f[0], nv - 1 - f[1], nv - 1 - f[2]]).collect(),
+                            ),
+                            5 => {
+                                let mut v = Vec::new();
+                                let mut f = Vec::new();
+                                for face in &pm.f {
+                                    let b = v.len() as u32;
+                                    for k in 0..3 {
+                                        v.push(chart_pt(&layout[face[k] as usize]));
+                                    }
+                                    f.push([b, b + 1, b + 2]);
+                                }
+                                (v, f)
+                            }
+                            _ => (layout.iter().map(chart_pt).collect(), pm.f.clone()),
+                        };
+                        let map = UvMapping::new(chart_v, chart_f).map_err(|e| e.to_string())?;
                         let verts: Vec<Point3> = pm.v.iter().map(|p| Point3::new(p[0], p[1], p[2])).collect();
                         let with_uv = Mesh::new_with_uv(verts, pm.f.clone(), false, Some(map));
                         let mut to_3d = Vec::new();
